@@ -199,3 +199,54 @@ def c_frame_constant_derivatives(k):
         k.prove_eq(f"{tag}: v_P = D_t r_OP", fr.v_P(t, B_r_CP=B), k.jvp(lambda t_: fr.r_OP(t_, B_r_CP=B), [t], [1.0]))
         k.prove_eq(f"{tag}: a_P = D_t v_P", fr.a_P(t, B_r_CP=B), k.jvp(lambda t_: fr.v_P(t_, B_r_CP=B), [t], [1.0]))
         k.prove_eq(f"{tag}: kappa_P = a_P", fr.kappa_P(t, B_r_CP=B), fr.a_P(t, B_r_CP=B))
+
+
+@contract("C04", "RigidBody, PointMass/integer-typed state and lists denote the same real values", samples=0, replayable=False, timeout=30)
+def c_machine_types(k):
+    """The contracts above run on symbolic reals; what depends on the MACHINE type of an argument is invisible to them.
+    A state given as an integer-typed array (System.assemble builds u0 from a list: all-integer initial velocities arrive
+    as int64) or as a list denotes the same real numbers: every evaluation routine returns what it returns for float64
+    (executed natively; results compared entrywise)."""
+    import inspect
+
+    from vk import kit as K
+    from vk import npshim
+
+    if not k.sym:
+        raise K.Reject("decided by native execution")
+    from cardillo.discrete.point_mass import PointMass
+    from cardillo.discrete.rigid_body import RigidBody
+
+    ARGS = {"t", "q", "u", "u_dot", "xi", "B_r_CP"}
+    with npshim.active(False):
+        Theta = np.array([[2.0, 0.3, -0.1], [0.3, 1.5, 0.2], [-0.1, 0.2, 1.1]])
+        for cls, make, q, u, ud in (
+            (RigidBody, lambda: RigidBody(1.7, Theta), [1, 2, 0, 1, 2, 0, 1], [0, 1, 2, 1, 2, -3], [1, 0, -1, 2, 0, 1]),
+            (PointMass, lambda: PointMass(1.7), [1, 2, 0], [0, 1, 2], [1, 0, -1]),
+        ):
+            names = []
+            for n in dir(cls):
+                f = getattr(cls, n)
+                if n.startswith("_") or not callable(f) or n in ("export", "step_callback", "pose2q", "q2pose", "local_qDOF_P", "local_uDOF_P"):
+                    continue
+                try:
+                    ps = [p for p in inspect.signature(f).parameters if p != "self"]
+                except (TypeError, ValueError):
+                    continue
+                if ps and set(ps) <= ARGS and "t" in ps:
+                    names.append((n, ps))
+            k.covers(*[getattr(getattr(cls, n), "__wrapped__", getattr(cls, n)) for n, _ in names])
+            for B in ([0.3, -0.2, 0.5], [1, -2, 3]):
+                for kind, conv in (("int64 arrays", lambda x: np.array(x, dtype=np.int64)), ("float32 arrays", lambda x: np.array(x, dtype=np.float32))):
+                    for n, ps in names:
+                        ref_obj, obj = make(), make()  # separate objects: nothing memoised is shared between the two calls
+                        vals_f = dict(t=0.0, q=np.array(q, dtype=float), u=np.array(u, dtype=float), u_dot=np.array(ud, dtype=float), xi=None, B_r_CP=np.array(B, dtype=float))
+                        vals_i = dict(t=0.0, q=conv(q), u=conv(u), u_dot=conv(ud), xi=None, B_r_CP=np.array(B, dtype=float) if isinstance(B[0], float) else conv(B))
+                        try:
+                            want = np.asarray(getattr(ref_obj, n)(*[vals_f[p] for p in ps]), dtype=float)
+                            got = np.asarray(getattr(obj, n)(*[vals_i[p] for p in ps]), dtype=float)
+                            ok = got.shape == want.shape and bool(np.allclose(got, want, rtol=1e-5 if "32" in kind else 1e-12, atol=1e-5 if "32" in kind else 1e-12))
+                            how = "" if ok else f"max deviation {np.max(np.abs(got - want)) if got.shape == want.shape else 'shape'}"
+                        except Exception as e:  # noqa: BLE001
+                            ok, how = False, f"raised {type(e).__name__}: {e}"
+                        k.prove(f"{cls.__name__}.{n}: state as {kind}, offset {B}: same result as float64", ok, show=how)
